@@ -445,6 +445,13 @@ def c10(m, obs, mech):
             out.append(V("C10", "container-booked", dict(task=tid, usage=obs.per_task[tid]), []))
     for g in obs.groups_booked:
         out.append(V("C10", "group-booked", dict(resource=g), []))
+    # a group occupies no resource time in ANY ledger: not in the per-task usage (above) and not in the per-slot
+    # "seconds used" mark either (a head reserved for a mid-slot bound before availability was asked)
+    for rid, leaf in obs.res_leaf.items():
+        if not leaf and rid not in obs.groups_booked:
+            used = {i: v for i, v in obs.used.get(rid, {}).items() if v > 1e-9}
+            if used:
+                out.append(V("C10", "group-slot-marked-used", dict(resource=rid, slots=dict(list(sorted(used.items()))[:4])), []))
     return out, n
 
 
